@@ -30,6 +30,9 @@ def one : XF := fin 1
 /-- `f64::EPSILON` = 2^-52 (the harness instantiates every builder at `F = f64`) -/
 def eps64 : XF := fin (1 / 4503599627370496)
 
+/-- `f32::EPSILON` = 2^-23 -/
+def eps32 : XF := fin (1 / 8388608)
+
 /-- IEEE `<` -/
 def lt : XF → XF → Bool
   | nan, _ => false
@@ -111,6 +114,16 @@ def ofBits (b : Nat) : Option XF :=
 
 end XF
 
+/-- the float type `F` a builder is instantiated at; the only thing a guard reads from it is `F::epsilon()` -/
+inductive Carrier where
+  | f64 | f32
+  deriving Repr, DecidableEq
+
+/-- `F::epsilon()` -/
+def XF.epsOf : Carrier → XF
+  | .f64 => XF.eps64
+  | .f32 => XF.eps32
+
 /-- the guard chain: the first guard that fires decides the error -/
 def firstErr : List (Option String) → Except String Unit
   | [] => .ok ()
@@ -153,12 +166,84 @@ def transformUnchecked (chk : P → Except E Unit) (tr : P → D → T) (p : P) 
   | .error e => .error e
   | .ok c => .ok (tr c x)
 
+/-! hand-written entry points on unchecked builders (not the blanket impls) -/
+
+/-- `TSneParams::transform` (both the `Array2` and the `DatasetBase` form, linfa-tsne/src/lib.rs):
+`self.check_ref()?.transform(x)` — the checked transform itself returns a `Result` -/
+def tryTransformUnchecked (chk : P → Except E Unit) (conv : E → E') (tr : P → D → Except E' T) (p : P) (x : D) : Except E' T :=
+  match checkRef chk p with
+  | .error e => .error (conv e)
+  | .ok c => tr c x
+
+/-- `CountVectorizerParams::{fit, fit_files, fit_vocabulary}` (countgrams/mod.rs):
+`self.check_ref().and_then(|params| params.fit(x))` -/
+def andThenUnchecked (chk : P → Except E Unit) (fit : P → D → Except E M) (p : P) (d : D) : Except E M :=
+  (checkRef chk p).bind fun c => fit c d
+
+/-- `TfIdfVectorizer::{fit, fit_files, fit_vocabulary}` (tf_idf_vectorization.rs): the unchecked count
+vectoriser parameters are a field; `let fitted = self.count_vectorizer.fit(x)?; Ok(Fitted { fitted, method })` -/
+def wrapUnchecked {M' : Type} (chk : P → Except E Unit) (fit : P → D → Except E M) (wrap : M → M') (p : P) (d : D) : Except E M' :=
+  match andThenUnchecked chk fit p d with
+  | .error e => .error e
+  | .ok m => .ok (wrap m)
+
 end Trait
+
+/-! ### the setters of `SvmParams` (linfa-svm/src/hyperparams.rs): which of `c` / `nu` a call sequence leaves set
+
+Generic in the value type `α` (the driver runs it on decoded bit patterns, the theorems hold for every `α`).
+`SvmConsts` are the three constants the setters insert: `F::one()`, `F::cast(0.1)`, `F::cast(1e-7)`. -/
+
+structure SvmConsts (α : Type) where
+  one : α
+  tenth : α
+  eps0 : α
+
+structure SvmState (α : Type) where
+  eps : α
+  c : Option (α × α)
+  nu : Option (α × α)
+
+inductive SvmSet (α : Type) where
+  /-- `.eps(x)` -/
+  | eps (x : α)
+  /-- `.pos_neg_weights(c_pos, c_neg)` -/
+  | posNeg (a b : α)
+  /-- `.nu_weight(nu)` -/
+  | nuWeight (v : α)
+  /-- `.c_eps(c, eps)` (deprecated; regression) -/
+  | cEps (c e : α)
+  /-- `.nu_eps(nu, eps)` (deprecated; regression) -/
+  | nuEps (nu e : α)
+  /-- `.c_svr(c, loss_eps)` -/
+  | cSvr (c : α) (lossEps : Option α)
+  /-- `.nu_svr(nu, c)` -/
+  | nuSvr (nu : α) (c : Option α)
+
+/-- `SvmParams::new()` -/
+def svmNew {α : Type} (k : SvmConsts α) : SvmState α := { eps := k.eps0, c := some (k.one, k.one), nu := none }
+
+def SvmSet.apply {α : Type} (k : SvmConsts α) (s : SvmState α) : SvmSet α → SvmState α
+  | .eps x => { s with eps := x }
+  | .posNeg a b => { s with c := some (a, b), nu := none }
+  | .nuWeight v => { s with nu := some (v, v), c := none }
+  | .cEps c e => { eps := e, c := some (c, k.tenth), nu := none }
+  | .nuEps nu e => { eps := e, nu := some (nu, k.one), c := none }
+  | .cSvr c le => { s with c := some (c, le.getD k.tenth), nu := none }
+  | .nuSvr nu c => { s with nu := some (nu, c.getD k.one), c := none }
+
+/-- a builder call chain `Svm::params().s1(..).s2(..)…` -/
+def svmRun {α : Type} (k : SvmConsts α) (ops : List (SvmSet α)) : SvmState α := ops.foldl (SvmSet.apply k) (svmNew k)
 
 /-! ### request decoding shared by the generated `parse` functions -/
 
 def parseXF (s : String) : Option XF := (parseHex s).bind fun n => if s.length = 16 then XF.ofBits n else none
 def argXF (toks : List String) (key : String) : Option XF := (arg toks key).bind parseXF
+def argCarrier (toks : List String) (key : String) : Option Carrier :=
+  match arg toks key with
+  | some "f64" => some .f64
+  | some "f32" => some .f32
+  | _ => none
 def argBool (toks : List String) (key : String) : Option Bool :=
   (arg toks key).bind fun s => if s = "1" then some true else if s = "0" then some false else none
 def pairOf {α} (f : String → Option α) (s : String) : Option (α × α) :=
